@@ -1,0 +1,17 @@
+//go:build !verif
+
+package collection
+
+// verifPoint is a no-op unless the module is built with the "verif" tag (see
+// verif_on.go).  It marks the synchronisation points of the queue for an
+// external runtime monitor.
+func verifPoint(kind uint8, queue any) {}
+
+const (
+	verifLock uint8 = iota + 1
+	verifLockClose
+	verifLockReset
+	verifSend
+	verifRecv
+	verifSpawn
+)
